@@ -1,2 +1,416 @@
-(** C05 — specification side (placeholder, filled in below). *)
+(** C05 — specification side.  Written from the GraphQL specification (October 2021, section 3
+    "Type System") and from the rule list in the property text, not from nitrogql's code: one
+    boolean per implemented rule ([ok_*], true = the rule is respected) over the resolved
+    type-system document, and [spec_valid], the conjunction of those with the further
+    schema-validity conditions of the specification that nitrogql does not implement.
+    Lookups assume what the specification assumes: type and directive names are unique
+    ([unique_names]); the rule booleans are only read under that guard.  Definitions only. *)
 From V Require Import Base.Util Gql.Ast.
+
+(** * helpers *)
+Fixpoint nodup_str (l : list str) : bool :=
+  match l with [] => true | x :: r => negb (existsb (str_eqb x) r) && nodup_str r end.
+
+Definition reserved (n : str) : bool := match n with 95%N :: 95%N :: _ => true | _ => false end.
+
+Definition types_of (doc : tsdoc) : list typedef := flat_map (fun d => match d with TSType t => [t] | _ => [] end) doc.
+Definition directives_of (doc : tsdoc) : list directivedef :=
+  flat_map (fun d => match d with TSDirective x => [x] | _ => [] end) doc.
+Definition schemas_of (doc : tsdoc) : list schemadef := flat_map (fun d => match d with TSSchema x => [x] | _ => [] end) doc.
+
+Definition tn (t : typedef) : str := iname (typedef_name t).
+Definition lookup_t (doc : tsdoc) (n : str) : option typedef := find (fun t => str_eqb (tn t) n) (types_of doc).
+Definition lookup_d (doc : tsdoc) (n : str) : option directivedef :=
+  find (fun d => str_eqb (iname (dd_name d)) n) (directives_of doc).
+
+Definition unique_names (doc : tsdoc) : bool :=
+  nodup_str (map tn (types_of doc)) && nodup_str (map (fun d => iname (dd_name d)) (directives_of doc)).
+
+(** IsInputType / IsOutputType (spec 3.4.2) on a named type; None = undefined *)
+Definition is_input_named (doc : tsdoc) (n : str) : option bool :=
+  match lookup_t doc n with
+  | None => None
+  | Some (TDScalar _ _ _ _ _) | Some (TDEnum _ _ _ _ _ _) | Some (TDInput _ _ _ _ _ _) => Some true
+  | Some _ => Some false
+  end.
+Definition is_output_named (doc : tsdoc) (n : str) : option bool :=
+  match lookup_t doc n with
+  | None => None
+  | Some (TDInput _ _ _ _ _ _) => Some false
+  | Some _ => Some true
+  end.
+Definition base_name (t : ty) : str := iname (ty_unwrapped t).
+
+Definition args_of (o : option (list inputvaldef)) : list inputvaldef := match o with Some l => l | None => [] end.
+
+(** fields of an object or interface type, with the interfaces it declares *)
+Definition comp_parts (t : typedef) : option (ident * list ident * list fielddef) :=
+  match t with
+  | TDObject _ _ n impls _ fs _ | TDInterface _ _ n impls _ fs _ => Some (n, impls, fs)
+  | _ => None
+  end.
+Definition comps (doc : tsdoc) : list (ident * list ident * list fielddef) :=
+  flat_map (fun t => match comp_parts t with Some x => [x] | None => [] end) (types_of doc).
+Definition all_fields (doc : tsdoc) : list fielddef := flat_map (fun c => snd c) (comps doc).
+(** every arguments definition: of fields and of directive definitions *)
+Definition all_arg_lists (doc : tsdoc) : list (list inputvaldef) :=
+  map (fun f => args_of (fd_args f)) (all_fields doc) ++ map (fun d => args_of (dd_args d)) (directives_of doc).
+Definition all_input_field_lists (doc : tsdoc) : list (list inputvaldef) :=
+  flat_map (fun t => match t with TDInput _ _ _ _ fs _ => [fs] | _ => [] end) (types_of doc).
+
+(** * Reserved names *)
+Definition ok_reserved (doc : tsdoc) : bool :=
+  forallb (fun t => negb (reserved (tn t))) (types_of doc) &&
+  forallb (fun d => negb (reserved (iname (dd_name d)))) (directives_of doc) &&
+  forallb (fun f => negb (reserved (iname (fd_name f)))) (all_fields doc) &&
+  forallb (forallb (fun a => negb (reserved (iname (iv_name a))))) (all_arg_lists doc) &&
+  forallb (forallb (fun a => negb (reserved (iname (iv_name a))))) (all_input_field_lists doc).
+
+(** * Uniqueness *)
+Definition ok_dup_field (doc : tsdoc) : bool :=
+  forallb (fun c => nodup_str (map (fun f => iname (fd_name f)) (snd c))) (comps doc).
+Definition ok_dup_arg (doc : tsdoc) : bool :=
+  forallb (fun l => nodup_str (map (fun a => iname (iv_name a)) l)) (all_arg_lists doc).
+Definition ok_dup_input_field (doc : tsdoc) : bool :=
+  forallb (fun l => nodup_str (map (fun a => iname (iv_name a)) l)) (all_input_field_lists doc).
+Definition ok_dup_enum_value (doc : tsdoc) : bool :=
+  forallb (fun t => match t with TDEnum _ _ _ _ vs _ => nodup_str (map (fun v => iname (ev_name v)) vs) | _ => true end)
+          (types_of doc).
+Definition ok_dup_union_member (doc : tsdoc) : bool :=
+  forallb (fun t => match t with TDUnion _ _ _ _ ms _ => nodup_str (map iname ms) | _ => true end) (types_of doc).
+
+(** * Known types, input/output positions *)
+Definition defined (doc : tsdoc) (n : str) : bool := match lookup_t doc n with Some _ => true | None => false end.
+Definition ok_unknown_type (doc : tsdoc) : bool :=
+  forallb (fun f => defined doc (base_name (fd_type f))) (all_fields doc) &&
+  forallb (forallb (fun a => defined doc (base_name (iv_type a)))) (all_arg_lists doc) &&
+  forallb (forallb (fun a => defined doc (base_name (iv_type a)))) (all_input_field_lists doc) &&
+  forallb (fun c => forallb (fun i => defined doc (iname i)) (snd (fst c))) (comps doc) &&
+  forallb (fun t => match t with TDUnion _ _ _ _ ms _ => forallb (fun m => defined doc (iname m)) ms | _ => true end)
+          (types_of doc).
+Definition not_false (o : option bool) : bool := match o with Some false => false | _ => true end.
+Definition ok_input_in_output (doc : tsdoc) : bool :=
+  forallb (fun f => not_false (is_output_named doc (base_name (fd_type f)))) (all_fields doc).
+Definition ok_output_in_input (doc : tsdoc) : bool :=
+  forallb (forallb (fun a => not_false (is_input_named doc (base_name (iv_type a))))) (all_arg_lists doc) &&
+  forallb (forallb (fun a => not_false (is_input_named doc (base_name (iv_type a))))) (all_input_field_lists doc).
+
+(** * Interfaces (spec 3.6 / 3.7, IsValidImplementation) *)
+Definition is_interface (doc : tsdoc) (n : str) : option bool :=
+  match lookup_t doc n with
+  | None => None | Some (TDInterface _ _ _ _ _ _ _) => Some true | Some _ => Some false end.
+Definition ok_not_interface (doc : tsdoc) : bool :=
+  forallb (fun c => forallb (fun i => not_false (is_interface doc (iname i))) (snd (fst c))) (comps doc).
+Definition ok_implements_self (doc : tsdoc) : bool :=
+  forallb (fun t => match t with
+                    | TDInterface _ _ n impls _ _ _ => negb (existsb (fun i => str_eqb (iname i) (iname n)) impls)
+                    | _ => true end) (types_of doc).
+(** the interface definitions a type declares *)
+Definition declared_ifaces (doc : tsdoc) (impls : list ident) : list (ident * list ident * list fielddef) :=
+  flat_map (fun i => match lookup_t doc (iname i) with
+                     | Some (TDInterface _ _ n ii _ fs _) => [(n, ii, fs)] | _ => [] end) impls.
+Definition declares (impls : list ident) (n : str) : bool := existsb (fun i => str_eqb (iname i) n) impls.
+Definition ok_missing_transitive (doc : tsdoc) : bool :=
+  forallb (fun c => forallb (fun j => forallb (fun k => declares (snd (fst c)) (iname k)) (snd (fst j)))
+                            (declared_ifaces doc (snd (fst c)))) (comps doc).
+
+Definition field_named (fs : list fielddef) (n : str) : option fielddef := find (fun f => str_eqb (iname (fd_name f)) n) fs.
+Definition arg_named (l : list inputvaldef) (n : str) : option inputvaldef := find (fun a => str_eqb (iname (iv_name a)) n) l.
+
+(** for every (implementing type X, declared interface J, field f of J) *)
+Definition forall_impl_fields (doc : tsdoc) (p : list fielddef -> fielddef -> bool) : bool :=
+  forallb (fun c => forallb (fun j => forallb (p (snd c)) (snd j)) (declared_ifaces doc (snd (fst c)))) (comps doc).
+
+Definition ok_iface_field_missing (doc : tsdoc) : bool :=
+  forall_impl_fields doc (fun fs jf => match field_named fs (iname (fd_name jf)) with Some _ => true | None => false end).
+
+Fixpoint same_type (a b : ty) : bool :=
+  match a, b with
+  | TNamed x, TNamed y => str_eqb (iname x) (iname y)
+  | TNonNull x, TNonNull y => same_type x y
+  | TList _ x, TList _ y => same_type x y
+  | _, _ => false
+  end.
+Definition is_union_member (doc : tsdoc) (u o : str) : bool :=
+  match lookup_t doc u with Some (TDUnion _ _ _ _ ms _) => existsb (fun m => str_eqb (iname m) o) ms | _ => false end.
+Definition declares_iface (doc : tsdoc) (x j : str) : bool :=
+  match lookup_t doc x with
+  | Some (TDObject _ _ _ impls _ _ _) | Some (TDInterface _ _ _ impls _ _ _) => declares impls j
+  | _ => false end.
+Definition is_object (doc : tsdoc) (n : str) : bool :=
+  match lookup_t doc n with Some (TDObject _ _ _ _ _ _ _) => true | _ => false end.
+Definition is_obj_or_iface (doc : tsdoc) (n : str) : bool :=
+  match lookup_t doc n with Some (TDObject _ _ _ _ _ _ _) | Some (TDInterface _ _ _ _ _ _ _) => true | _ => false end.
+(** IsValidImplementationFieldType(fieldType, implementedFieldType) *)
+Fixpoint valid_impl_field_type (doc : tsdoc) (ft it : ty) {struct ft} : bool :=
+  match ft with
+  | TNonNull f' => valid_impl_field_type doc f' (match it with TNonNull i' => i' | _ => it end)
+  | TList _ f' => match it with TList _ i' => valid_impl_field_type doc f' i' | _ => false end
+  | TNamed fn =>
+      match it with
+      | TNamed inn =>
+          str_eqb (iname fn) (iname inn)
+          || (is_object doc (iname fn) && is_union_member doc (iname inn) (iname fn))
+          || (is_obj_or_iface doc (iname fn) && (match is_interface doc (iname inn) with Some true => true | _ => false end)
+              && declares_iface doc (iname fn) (iname inn))
+      | _ => false
+      end
+  end.
+(** the type positions involved are all defined (otherwise the unknown-type rule is the broken one) *)
+Definition ty_defined (doc : tsdoc) (t : ty) : bool := defined doc (base_name t).
+Definition ok_iface_field_type (doc : tsdoc) : bool :=
+  forall_impl_fields doc (fun fs jf =>
+    match field_named fs (iname (fd_name jf)) with
+    | Some f => if ty_defined doc (fd_type f) && ty_defined doc (fd_type jf)
+                then valid_impl_field_type doc (fd_type f) (fd_type jf) else true
+    | None => true end).
+Definition ok_iface_arg_missing (doc : tsdoc) : bool :=
+  forall_impl_fields doc (fun fs jf =>
+    match field_named fs (iname (fd_name jf)) with
+    | Some f => forallb (fun ja => match arg_named (args_of (fd_args f)) (iname (iv_name ja)) with Some _ => true | None => false end)
+                        (args_of (fd_args jf))
+    | None => true end).
+Definition ok_iface_arg_type (doc : tsdoc) : bool :=
+  forall_impl_fields doc (fun fs jf =>
+    match field_named fs (iname (fd_name jf)) with
+    | Some f => forallb (fun ja => match arg_named (args_of (fd_args f)) (iname (iv_name ja)) with
+                                   | Some a => same_type (iv_type a) (iv_type ja) | None => true end)
+                        (args_of (fd_args jf))
+    | None => true end).
+Definition is_required (a : inputvaldef) : bool :=
+  match iv_type a, iv_default a with TNonNull _, None => true | _, _ => false end.
+Definition ok_iface_extra_required_arg (doc : tsdoc) : bool :=
+  forall_impl_fields doc (fun fs jf =>
+    match field_named fs (iname (fd_name jf)) with
+    | Some f => forallb (fun a => match arg_named (args_of (fd_args jf)) (iname (iv_name a)) with
+                                  | Some _ => true | None => negb (is_required a) end)
+                        (args_of (fd_args f))
+    | None => true end).
+
+Definition ok_union_member_not_object (doc : tsdoc) : bool :=
+  forallb (fun t => match t with
+                    | TDUnion _ _ _ _ ms _ => forallb (fun m => match lookup_t doc (iname m) with
+                                                               | None | Some (TDObject _ _ _ _ _ _ _) => true | Some _ => false end) ms
+                    | _ => true end) (types_of doc).
+
+(** * Directive applications *)
+(** every list of applications with the name of its location (spec 3.13, TypeSystemDirectiveLocation) *)
+Definition arg_apps (l : list inputvaldef) : list (str * list directive) :=
+  map (fun a => (s "ARGUMENT_DEFINITION", iv_dirs a)) l.
+Definition field_apps (fs : list fielddef) : list (str * list directive) :=
+  flat_map (fun f => (s "FIELD_DEFINITION", fd_dirs f) :: arg_apps (args_of (fd_args f))) fs.
+Definition type_apps (t : typedef) : list (str * list directive) :=
+  match t with
+  | TDScalar _ _ _ ds _ => [(s "SCALAR", ds)]
+  | TDObject _ _ _ _ ds fs _ => (s "OBJECT", ds) :: field_apps fs
+  | TDInterface _ _ _ _ ds fs _ => (s "INTERFACE", ds) :: field_apps fs
+  | TDUnion _ _ _ ds _ _ => [(s "UNION", ds)]
+  | TDEnum _ _ _ ds vs _ => (s "ENUM", ds) :: map (fun v => (s "ENUM_VALUE", ev_dirs v)) vs
+  | TDInput _ _ _ ds fs _ => (s "INPUT_OBJECT", ds) :: map (fun f => (s "INPUT_FIELD_DEFINITION", iv_dirs f)) fs
+  end.
+Definition all_apps (doc : tsdoc) : list (str * list directive) :=
+  flat_map (fun d => match d with
+                     | TSSchema sd => [(s "SCHEMA", sd_dirs sd)]
+                     | TSType t => type_apps t
+                     | TSDirective dd => arg_apps (args_of (dd_args dd))
+                     | _ => [] end) doc.
+
+Definition ok_directive_unknown (doc : tsdoc) : bool :=
+  forallb (fun la => forallb (fun a : directive => match lookup_d doc (iname (dir_name a)) with Some _ => true | None => false end)
+                             (snd la)) (all_apps doc).
+Definition ok_directive_misplaced (doc : tsdoc) : bool :=
+  forallb (fun la => forallb (fun a : directive =>
+             match lookup_d doc (iname (dir_name a)) with
+             | Some d => existsb (fun l => str_eqb (iname l) (fst la)) (dd_locs d) | None => true end) (snd la)) (all_apps doc).
+Fixpoint count_name (n : str) (l : list directive) : nat :=
+  match l with [] => 0 | a :: r => (if str_eqb (iname (dir_name a)) n then 1 else 0) + count_name n r end.
+Definition ok_directive_repeated (doc : tsdoc) : bool :=
+  forallb (fun la => forallb (fun a : directive =>
+             match lookup_d doc (iname (dir_name a)) with
+             | Some d => match dd_repeatable d with
+                         | Some _ => true | None => Nat.leb (count_name (iname (dir_name a)) (snd la)) 1 end
+             | None => true end) (snd la)) (all_apps doc).
+
+(** ** literal values against types: input coercion of constant values (spec 3.5 - 3.12, 5.6.1) *)
+Definition digit (c : N) : option Z := if (48 <=? c)%N && (c <=? 57)%N then Some (Z.of_N (c - 48)) else None.
+Fixpoint parse_digits (acc : Z) (l : str) : option Z :=
+  match l with
+  | [] => Some acc
+  | c :: r => match digit c with Some d => parse_digits (acc * 10 + d)%Z r | None => None end
+  end.
+Definition parse_int (l : str) : option Z :=
+  match l with
+  | 45%N :: (_ :: _) as r => option_map Z.opp (parse_digits 0 r)
+  | _ :: _ => parse_digits 0 l
+  | [] => None
+  end.
+Definition int32 (lexeme : str) : bool :=
+  match parse_int lexeme with Some z => (-2147483648 <=? z)%Z && (z <=? 2147483647)%Z | None => false end.
+
+(** every provided field of an input-object literal is defined and its value fits *)
+Definition each_field (vo : value -> ty -> bool) (fields : list inputvaldef) :=
+  fix each (l : list (ident * value)) : bool :=
+    match l with
+    | [] => true
+    | (k, fv) :: r =>
+        (match arg_named fields (iname k) with Some fd => vo fv (iv_type fd) | None => false end) && each r
+    end.
+
+(** a non-null constant against a named type; [vo] is value_ok itself (for the fields of an input-object literal) *)
+Definition named_ok (vo : value -> ty -> bool) (strict_int : bool) (doc : tsdoc) (v : value) (n : ident) : bool :=
+  match lookup_t doc (iname n) with
+  | Some (TDScalar _ _ _ _ _) =>
+      if str_eqb (iname n) (s "Int") then (match v with VInt _ x => negb strict_int || int32 x | _ => false end)
+      else if str_eqb (iname n) (s "Float") then (match v with VInt _ _ | VFloat _ _ => true | _ => false end)
+      else if str_eqb (iname n) (s "String") then (match v with VString _ _ => true | _ => false end)
+      else if str_eqb (iname n) (s "Boolean") then (match v with VBool _ _ => true | _ => false end)
+      else if str_eqb (iname n) (s "ID") then (match v with VString _ _ | VInt _ _ => true | _ => false end)
+      else true
+  | Some (TDEnum _ _ _ _ vals _) =>
+      match v with VEnum _ x => existsb (fun m => str_eqb (iname (ev_name m)) x) vals | _ => false end
+  | Some (TDInput _ _ _ _ fields _) =>
+      match v with
+      | VObject _ fs =>
+          nodup_str (map (fun kv => iname (fst kv)) fs) &&
+          each_field vo fields fs &&
+          (* every required field is provided *)
+          forallb (fun fd => negb (is_required fd) || existsb (fun kv => str_eqb (iname (fst kv)) (iname (iv_name fd))) fs)
+                  fields
+      | _ => false
+      end
+  | _ => false
+  end.
+
+Fixpoint value_ok (strict_int : bool) (doc : tsdoc) (v : value) {struct v} : ty -> bool :=
+  fix on_ty (t : ty) {struct t} : bool :=
+    match v with
+    | VVar _ _ => false                              (* constants only *)
+    | _ =>
+      match t with
+      | TNonNull inner => match v with VNull _ => false | _ => on_ty inner end
+      | TList _ inner =>
+          match v with
+          | VNull _ => true
+          | VList _ vs => forallb (fun e => value_ok strict_int doc e inner) vs
+          | _ => on_ty inner
+          end
+      | TNamed n =>
+          match v with
+          | VNull _ => true
+          | _ => named_ok (value_ok strict_int doc) strict_int doc v n
+          end
+      end
+    end.
+
+(** one application against its definition: known argument names, required arguments, values *)
+Definition app_args (a : directive) : list (ident * value) := match dir_args a with Some x => args_list x | None => [] end.
+Definition app_args_ok (strict_int : bool) (doc : tsdoc) (a : directive) (d : directivedef) : bool :=
+  let defs := args_of (dd_args d) in
+  let given := app_args a in
+  forallb (fun kv : ident * value =>
+             match arg_named defs (iname (fst kv)) with Some ad => value_ok strict_int doc (snd kv) (iv_type ad) | None => false end) given &&
+  forallb (fun ad => negb (is_required ad) || existsb (fun kv : ident * value => str_eqb (iname (fst kv)) (iname (iv_name ad))) given) defs.
+Definition ok_directive_args_gen (strict_int : bool) (doc : tsdoc) : bool :=
+  forallb (fun la => forallb (fun a : directive =>
+             match lookup_d doc (iname (dir_name a)) with Some d => app_args_ok strict_int doc a d | None => true end) (snd la)) (all_apps doc).
+(** the specification's reading: an Int literal must fit in 32 bits *)
+Definition ok_directive_args (doc : tsdoc) : bool := ok_directive_args_gen true doc.
+(** the same without the 32-bit range condition on Int literals *)
+Definition ok_directive_args_lenient (doc : tsdoc) : bool := ok_directive_args_gen false doc.
+(** Argument Uniqueness (5.4.2), not among the rules nitrogql implements *)
+Definition ok_app_arg_unique (doc : tsdoc) : bool :=
+  forallb (fun la => forallb (fun a : directive => nodup_str (map (fun kv => iname (fst kv)) (app_args a))) (snd la)) (all_apps doc).
+
+(** * Directive definitions must not reference themselves, directly or indirectly (spec 3.13) *)
+(** directives applied on the definition of a named type, anywhere inside it *)
+Definition dirs_on_type (t : typedef) : list str :=
+  flat_map (fun la => map (fun a : directive => iname (dir_name a)) (snd la)) (type_apps t).
+(** input types reachable from a type name through input-object fields, bounded by fuel *)
+Fixpoint reach_types (doc : tsdoc) (fuel : nat) (n : str) : list str :=
+  match fuel with
+  | O => [n]
+  | S f => n :: match lookup_t doc n with
+                | Some (TDInput _ _ _ _ fs _) => flat_map (fun fd => reach_types doc f (base_name (iv_type fd))) fs
+                | _ => [] end
+  end.
+(** [nested] = follow input-object field types transitively (the specification's reading);
+    otherwise only the argument's own named type (the scope of nitrogql's rule) *)
+Definition dir_succ (nested : bool) (doc : tsdoc) (d : directivedef) : list str :=
+  flat_map (fun a : inputvaldef =>
+    map (fun x : directive => iname (dir_name x)) (iv_dirs a) ++
+    flat_map (fun n => match lookup_t doc n with Some t => dirs_on_type t | None => [] end)
+             (if nested then reach_types doc (length doc) (base_name (iv_type a)) else [base_name (iv_type a)]))
+    (args_of (dd_args d)).
+Definition succ_names (nested : bool) (doc : tsdoc) (ns : list str) : list str :=
+  flat_map (fun n => match lookup_d doc n with Some d => dir_succ nested doc d | None => [] end) ns.
+Fixpoint add_new (seen l : list str) : list str :=
+  match l with [] => seen | x :: r => if existsb (str_eqb x) seen then add_new seen r else add_new (seen ++ [x]) r end.
+Fixpoint closure (nested : bool) (doc : tsdoc) (fuel : nat) (seen : list str) : list str :=
+  match fuel with O => seen | S f => closure nested doc f (add_new seen (succ_names nested doc seen)) end.
+Definition reaches_self (nested : bool) (doc : tsdoc) (d : directivedef) : bool :=
+  existsb (str_eqb (iname (dd_name d)))
+          (closure nested doc (length doc) (add_new [] (dir_succ nested doc d))).
+Definition ok_directive_recursive (doc : tsdoc) : bool :=
+  forallb (fun d => negb (reaches_self true doc d)) (directives_of doc).
+(** the same with nitrogql's one-level reading of "referencing a Type" *)
+Definition ok_directive_recursive_shallow (doc : tsdoc) : bool :=
+  forallb (fun d => negb (reaches_self false doc d)) (directives_of doc).
+
+(** * The implemented rules, by name *)
+Inductive rule :=
+| RReserved | RDupField | RDupArg | RDupEnumValue | RDupUnionMember | RDupInputField
+| RUnknownType | RInputInOutput | ROutputInInput | RNotInterface | RImplementsSelf | RMissingTransitive
+| RIfaceFieldMissing | RIfaceFieldType | RIfaceArgMissing | RIfaceArgType | RIfaceExtraRequiredArg
+| RUnionMemberNotObject | RDirectiveUnknown | RDirectiveMisplaced | RDirectiveRepeated | RDirectiveArgs
+| RDirectiveRecursive.
+
+Definition rule_ok (r : rule) (doc : tsdoc) : bool :=
+  match r with
+  | RReserved => ok_reserved doc | RDupField => ok_dup_field doc | RDupArg => ok_dup_arg doc
+  | RDupEnumValue => ok_dup_enum_value doc | RDupUnionMember => ok_dup_union_member doc
+  | RDupInputField => ok_dup_input_field doc | RUnknownType => ok_unknown_type doc
+  | RInputInOutput => ok_input_in_output doc | ROutputInInput => ok_output_in_input doc
+  | RNotInterface => ok_not_interface doc | RImplementsSelf => ok_implements_self doc
+  | RMissingTransitive => ok_missing_transitive doc | RIfaceFieldMissing => ok_iface_field_missing doc
+  | RIfaceFieldType => ok_iface_field_type doc | RIfaceArgMissing => ok_iface_arg_missing doc
+  | RIfaceArgType => ok_iface_arg_type doc | RIfaceExtraRequiredArg => ok_iface_extra_required_arg doc
+  | RUnionMemberNotObject => ok_union_member_not_object doc | RDirectiveUnknown => ok_directive_unknown doc
+  | RDirectiveMisplaced => ok_directive_misplaced doc | RDirectiveRepeated => ok_directive_repeated doc
+  | RDirectiveArgs => ok_directive_args doc | RDirectiveRecursive => ok_directive_recursive doc
+  end.
+Definition all_rules : list rule :=
+  [RReserved; RDupField; RDupArg; RDupEnumValue; RDupUnionMember; RDupInputField; RUnknownType; RInputInOutput;
+   ROutputInInput; RNotInterface; RImplementsSelf; RMissingTransitive; RIfaceFieldMissing; RIfaceFieldType;
+   RIfaceArgMissing; RIfaceArgType; RIfaceExtraRequiredArg; RUnionMemberNotObject; RDirectiveUnknown;
+   RDirectiveMisplaced; RDirectiveRepeated; RDirectiveArgs; RDirectiveRecursive].
+Definition violated (doc : tsdoc) : list rule := filter (fun r => negb (rule_ok r doc)) all_rules.
+
+(** * Further validity conditions of the specification that nitrogql does not implement *)
+Definition root_ok (doc : tsdoc) : bool :=
+  match schemas_of doc with
+  | [] => is_object doc (s "Query")
+          && (negb (defined doc (s "Mutation")) || is_object doc (s "Mutation"))
+          && (negb (defined doc (s "Subscription")) || is_object doc (s "Subscription"))
+  | [sd] =>
+      let ops := sd_ops sd in
+      existsb (fun o => optype_eqb (fst o) Query) ops &&
+      forallb (fun o => is_object doc (iname (snd o))) ops &&
+      nodup_str (map (fun o => iname (snd o)) ops) &&
+      Nat.leb (length (filter (fun o => optype_eqb (fst o) Query) ops)) 1 &&
+      Nat.leb (length (filter (fun o => optype_eqb (fst o) Mutation) ops)) 1 &&
+      Nat.leb (length (filter (fun o => optype_eqb (fst o) Subscription) ops)) 1
+  | _ => false
+  end.
+Definition nonempty_ok (doc : tsdoc) : bool :=
+  forallb (fun t => match t with
+                    | TDObject _ _ _ _ _ fs _ | TDInterface _ _ _ _ _ fs _ => negb (match fs with [] => true | _ => false end)
+                    | TDUnion _ _ _ _ ms _ => negb (match ms with [] => true | _ => false end)
+                    | TDEnum _ _ _ _ vs _ => negb (match vs with [] => true | _ => false end)
+                    | TDInput _ _ _ _ fs _ => negb (match fs with [] => true | _ => false end)
+                    | _ => true end) (types_of doc).
+Definition implements_unique_ok (doc : tsdoc) : bool :=
+  forallb (fun c => nodup_str (map iname (snd (fst c)))) (comps doc).
+
+Definition spec_valid (doc : tsdoc) : bool :=
+  unique_names doc && forallb (fun r => rule_ok r doc) all_rules &&
+  ok_app_arg_unique doc && root_ok doc && nonempty_ok doc && implements_unique_ok doc.
